@@ -218,7 +218,7 @@ func vfGenDetCfg(t *rapid.T, dynamic bool, big bool) vfDetCfg {
 // vfGenValue draws pixel values around the thresholds.
 func vfGenValue(t *rapid.T, c vfDetCfg, around uint16) uint16 {
 	T, D := int(c.T), int(c.D)
-	cands := []int{0, T - 1, T, T + 1, T + D - 1, T + D, T + D + 1, T + 2*D + 2, int(around) + D, int(around) + D + 1, int(around) - D - 1, int(around), 65535}
+	cands := []int{0, T - 1, T, T + 1, T + D - 1, T + D, T + D + 1, T + 2*D + 2, int(around) + D, int(around) + D + 1, int(around) - D - 1, int(around), 65535, int(around) + 1, int(around) + 2, int(around) - 1, int(around) + D + 3}
 	k := rapid.IntRange(0, len(cands)+2).Draw(t, "vk")
 	if k >= len(cands) {
 		return uint16(rapid.IntRange(0, 65535).Draw(t, "v"))
